@@ -1143,6 +1143,21 @@ def extract_unit(spec_path, repo, out_path, meta_path=None, canary=None):
                 'sha256': hashlib.sha256(raw.encode()).hexdigest(), 'has_contract': True,
                 'loops': 0, 'slice': True, 'synthetic_signature': sig_text,
             })
+        elif kind == 'uses':
+            # modular verification: a caller is covered by a callee's contract only if it calls that
+            # callee.  `uses` pins a call site: inside fn `within_fn` the text must match `pattern`
+            # (the call of the function under contract); otherwise the caller may be using something
+            # without a contract -> lost anchor (exit 2), never a verdict
+            fs, _, fo, fc = locate(src, 'fn', item['within_fn'], lo, hi)
+            body = src.text[src.tok(fo)[3]:src.tok(fc)[2]]
+            body = re.sub(r'//[^\n]*', '', body)
+            n = len(re.findall(item['pattern'], body))
+            if n != item.get('count', 1):
+                raise LostAnchor('uses %s: fn %s in %s matches /%s/ %d time(s), expected %d -- the call site no longer '
+                                 'goes through the function under contract' % (item['name'], item['within_fn'], rel,
+                                                                               item['pattern'], n, item.get('count', 1)))
+            log.append({'rule': 'USES', 'before': '%s in fn %s' % (item['pattern'], item['within_fn']), 'after': 'call site pinned',
+                        'file': rel, 'line': src.line_of(src.tok(fo)[3])})
         elif kind == 'dispatch_table':
             # R15: the arms of a winnow `dispatch! {FIRST; PAT => PARSER, ..}` inside a function,
             # as a pure table: an arm `PAT => empty.value(V)` (succeed with V, consume nothing)
